@@ -3,6 +3,7 @@ package memtable
 import (
 	"fmt"
 	"iter"
+	"slices"
 	"strings"
 	"sync"
 
@@ -72,7 +73,9 @@ func (l *List) Put(key []byte, value []byte, seqNum uint64) (full bool) {
 }
 
 func (l *List) Get(key []byte) (kv.Entry, error) {
-	for _, t := range l.tablesSnap() {
+	// Search from the active table back to the oldest sealed table so that the
+	// most recent write to the key is the one that's found.
+	for _, t := range slices.Backward(l.tablesSnap()) {
 		v, err := t.Get(key)
 		if err != nil {
 			if err == kv.ErrNotFound {
